@@ -51,6 +51,8 @@ type workerOut struct {
 	SegDirected int64             `json:"values_with_boundary_directed_cuts"`
 	Seg3        int64             `json:"values_with_every_3_segment_cut_pair"`
 	SegLimits   string            `json:"segmentation_bounds"`
+	SegSingle   int64             `json:"values_parsed_as_all_1_byte_segments"`
+	SegSpan     int64             `json:"single_value_spanning_3_or_4_segments_parses"`
 	Distinct    int               `json:"distinct_encodings"`
 	Phase1Done  bool              `json:"phase1_complete"`
 	Phase2Done  bool              `json:"phase2_complete"`
@@ -257,7 +259,7 @@ func main() {
 
 	// 3+4. run worker and regeneration concurrently
 	thorough := rep.Thorough()
-	budget := 95
+	budget := 105
 	if thorough {
 		budget = 24 * 60
 	}
@@ -338,39 +340,41 @@ func main() {
 		samples = []string{"(none)"}
 	}
 	cov := report.Coverage{
-		"evaluations":                            wout.Values + wout.Pairs + wout.Insertions + wout.SegParses + int64(len(sc.GenDirs)*genRuns),
-		"distinct_nontrivial":                    wout.Distinct,
-		"rule":                                   "distinct (model, encoded byte string) pairs produced by the real encoders for the <=1-deviation values (FNV-64 of the bytes); every one of them was decoded again and had an unknown element inserted at every boundary",
-		"samples":                                samples,
-		"exhaustive":                             exhaustive,
-		"models_discovered":                      len(sc.Models),
-		"models_driven":                          len(wout.Models),
-		"packages":                               len(pkgs),
-		"models_per_package":                     pkgList,
-		"generated_files":                        sc.Files,
-		"skipped_models":                         skipped,
-		"values_le1_deviation":                   wout.Values,
-		"values_2_deviations":                    wout.Pairs,
-		"parses":                                 wout.Parses,
-		"insertion_points":                       wout.Points,
-		"insertions":                             wout.Insertions,
-		"segmented_parses":                       wout.SegParses,
-		"values_with_every_2_segment_cut":        wout.SegAllCuts,
-		"values_with_boundary_directed_cuts":     wout.SegDirected,
-		"values_with_every_3_segment_cut_pair":   wout.Seg3,
-		"segmentation_bounds":                    wout.SegLimits,
-		"max_deviations":                         wout.MaxDev,
-		"max_struct_depth_for_nested_deviations": wout.MaxDepth,
-		"units_total":                            wout.UnitsTotal,
-		"units_done":                             wout.UnitsDone,
-		"phase1_le1_deviation_all_clauses_complete": wout.Phase1Done,
-		"phase2_pairs_len_rt_run":                   wout.Phase2Run,
-		"phase2_pairs_len_rt_complete":              wout.Phase2Done,
-		"raw_violating_cases":                       wout.Raw,
-		"regeneration":                              gres,
-		"regeneration_dirs":                         len(sc.GenDirs),
-		"generated_files_without_directive":         orphan,
-		"per_model":                                 wout.Models,
+		"evaluations":                          wout.Values + wout.Pairs + wout.Insertions + wout.SegParses + int64(len(sc.GenDirs)*genRuns),
+		"distinct_nontrivial":                  wout.Distinct,
+		"rule":                                 "distinct (model, encoded byte string) pairs produced by the real encoders for the <=1-deviation values (FNV-64 of the bytes); every one of them was decoded again and had an unknown element inserted at every boundary",
+		"samples":                              samples,
+		"exhaustive":                           exhaustive,
+		"models_discovered":                    len(sc.Models),
+		"models_driven":                        len(wout.Models),
+		"packages":                             len(pkgs),
+		"models_per_package":                   pkgList,
+		"generated_files":                      sc.Files,
+		"skipped_models":                       skipped,
+		"values_le1_deviation":                 wout.Values,
+		"values_2_deviations":                  wout.Pairs,
+		"parses":                               wout.Parses,
+		"insertion_points":                     wout.Points,
+		"insertions":                           wout.Insertions,
+		"segmented_parses":                     wout.SegParses,
+		"values_with_every_2_segment_cut":      wout.SegAllCuts,
+		"values_with_boundary_directed_cuts":   wout.SegDirected,
+		"values_with_every_3_segment_cut_pair": wout.Seg3,
+		"values_parsed_as_all_1_byte_segments": wout.SegSingle,
+		"single_value_spanning_3_or_4_segments_parses": wout.SegSpan,
+		"segmentation_bounds":                          wout.SegLimits,
+		"max_deviations":                               wout.MaxDev,
+		"max_struct_depth_for_nested_deviations":       wout.MaxDepth,
+		"units_total":                                  wout.UnitsTotal,
+		"units_done":                                   wout.UnitsDone,
+		"phase1_le1_deviation_all_clauses_complete":    wout.Phase1Done,
+		"phase2_pairs_len_rt_run":                      wout.Phase2Run,
+		"phase2_pairs_len_rt_complete":                 wout.Phase2Done,
+		"raw_violating_cases":                          wout.Raw,
+		"regeneration":                                 gres,
+		"regeneration_dirs":                            len(sc.GenDirs),
+		"generated_files_without_directive":            orphan,
+		"per_model":                                    wout.Models,
 	}
 	assumptions := []string{
 		"values are bounded: base in {all-minimal, all-typical, all-maximal} plus <=1 (quick) / <=2 (thorough) single-field deviations drawn from fixed boundary domains; deviations inside nested models up to the stated depth",
